@@ -74,7 +74,93 @@ func Run() (lines []string, mismatches int) {
 			lines = append(lines, fmt.Sprintf("%s %s %-24s real=%v watches=%d | model=%v watches=%d", status, mode, o.name, real, realWatches, sim, simWatches))
 		}
 	}
+	// queue overflow with nobody reading Errors (what plugins/file did): the watcher goes silent until the error is read
+	ro, so := overflowReal(), overflowSim()
+	status := "ok      "
+	if ro != so {
+		status = "MISMATCH"
+		mismatches++
+	}
+	lines = append(lines, fmt.Sprintf("%s dir-watch  %-24s real=[%s] | model=[%s]", status, "queue-overflow", ro, so))
 	return lines, mismatches
+}
+
+// overflowReal: 17000 files are created in a watched directory while nobody reads Events (the kernel queue holds
+// fs.inotify.max_queued_events = 16384 by default), then the consumer starts. Reported: whether about a queue's worth
+// of events arrives, how many events a later change produces while Errors is unread, the error, and how many events
+// two changes (one made while silent, one after) produce once the error has been read.
+func overflowReal() string {
+	dir, err := os.MkdirTemp("/dev/shm", "verif-fscal-ovf-")
+	if err != nil {
+		return "ERR " + err.Error()
+	}
+	defer os.RemoveAll(dir)
+	w, err := fsnotify.NewWatcher()
+	if err != nil {
+		return "ERR " + err.Error()
+	}
+	defer w.Close()
+	if err := w.Add(dir); err != nil {
+		return "ERR " + err.Error()
+	}
+	limit := 16384
+	if b, err := os.ReadFile("/proc/sys/fs/inotify/max_queued_events"); err == nil {
+		fmt.Sscanf(strings.TrimSpace(string(b)), "%d", &limit)
+	}
+	for i := 0; i < limit+600; i++ {
+		f, _ := os.Create(filepath.Join(dir, fmt.Sprintf("f%d", i)))
+		f.Close()
+	}
+	drain := func(d time.Duration) int {
+		k := 0
+		for {
+			select {
+			case <-w.Events:
+				k++
+				continue
+			case <-time.After(d):
+			}
+			return k
+		}
+	}
+	burst := drain(400 * time.Millisecond)
+	os.WriteFile(filepath.Join(dir, "leases"), []byte("x"), 0o644)
+	silent := drain(400 * time.Millisecond)
+	errStr := "none"
+	select {
+	case e := <-w.Errors:
+		errStr = e.Error()
+	case <-time.After(400 * time.Millisecond):
+	}
+	os.WriteFile(filepath.Join(dir, "leases2"), []byte("x"), 0o644)
+	after := drain(400 * time.Millisecond)
+	return fmt.Sprintf("burst delivers about one queue=%v, while the error is unread=%d, error=%q, after reading it=%d", burst >= limit && burst < limit+600, silent, errStr, after)
+}
+
+func overflowSim() string {
+	s := simrt.New(simrt.Config{}, simrt.ReplayTape(nil))
+	defer s.Detach()
+	s.InotifyQueueMax = 16
+	dir := "/sim/dir"
+	s.FSRegisterDir(dir)
+	w, _ := simrt.NewWatcher()
+	if err := w.Add(dir); err != nil {
+		return "ERR " + err.Error()
+	}
+	for i := 0; i < 40; i++ {
+		s.FSCreateEvent(fmt.Sprintf("%s/f%d", dir, i), nil)
+	}
+	burst, _ := w.DrainForCalibration(false)
+	s.FSCreateEvent(dir+"/leases", []byte("x"))
+	silent, _ := w.DrainForCalibration(false)
+	errStr := "none"
+	held, errs := w.DrainForCalibration(true) // reading the error releases the events that were held back
+	if len(errs) > 0 {
+		errStr = errs[0].Error()
+	}
+	s.FSCreateEvent(dir+"/leases2", []byte("x"))
+	after, _ := w.DrainForCalibration(true)
+	return fmt.Sprintf("burst delivers about one queue=%v, while the error is unread=%d, error=%q, after reading it=%d", burst >= 16 && burst < 40, silent, errStr, held+after)
 }
 
 func runReal(o op, dirMode bool) ([]string, int) {
